@@ -172,12 +172,20 @@ func (c *Ctx) path(v ssa.Value, env Env, d int) string {
 		}
 		return c.path(x.X, env, d) + "[" + lo + ":" + hi + "]"
 	case *ssa.BinOp:
+		if isInduction(x.X) || isInduction(x.Y) {
+			if x.Op == token.ADD || x.Op == token.SUB {
+				return "ι"
+			}
+		}
 		return "(" + c.path(x.X, env, d+1) + " " + x.Op.String() + " " + c.path(x.Y, env, d+1) + ")"
 	case *ssa.Extract:
 		return c.path(x.Tuple, env, d) + fmt.Sprintf("#%d", x.Index)
 	case *ssa.Call:
 		return c.callPath(&x.Call, env, d)
 	case *ssa.Phi:
+		if isInduction(x) {
+			return "ι"
+		}
 		set := map[string]bool{}
 		for _, e := range x.Edges {
 			set[c.path(e, env, d+3)] = true
@@ -614,4 +622,18 @@ func unquote(s string) string {
 		}
 	}
 	return s
+}
+
+// isInduction: v is a loop induction variable phi (one of its edges is an arithmetic update of itself).
+func isInduction(v ssa.Value) bool {
+	phi, ok := v.(*ssa.Phi)
+	if !ok {
+		return false
+	}
+	for _, e := range phi.Edges {
+		if b, ok := e.(*ssa.BinOp); ok && (b.Op == token.ADD || b.Op == token.SUB) && (b.X == ssa.Value(phi) || b.Y == ssa.Value(phi)) {
+			return true
+		}
+	}
+	return false
 }
